@@ -260,6 +260,9 @@ static inline void verif_lib_anchor(void) { float f__ = roundf(0.5f) + floorf(0.
 #endif
 
 /* std model support */
+#ifndef VERIF_REPLAY
+extern unsigned long verif_atomic_ops; /* ghost: number of atomic accesses performed (atomic discipline) */
+#endif
 typedef struct verif_ctrl { long cnt; } verif_ctrl;
 #ifdef VERIF_CBMC
 void *malloc(size_t);
